@@ -75,6 +75,9 @@ IsHexCp(c) == (c >= 48 /\ c <= 57) \/ (c >= 65 /\ c <= 70) \/ (c >= 97 /\ c <= 1
 LooksEscaped(s) == /\ \E i \in 1..Len(s) : s[i] = 37
                    /\ \A i \in 1..Len(s) : s[i] = 37 => (i + 2 <= Len(s) /\ IsHexCp(s[i+1]) /\ IsHexCp(s[i+2]))
 
+(* RFC 3986 2.1: in an emitted URI every "%" is followed by two hex digits *)
+ValidPct(s) == \A i \in 1..Len(s) : s[i] = 37 => (i + 2 <= Len(s) /\ IsHexCp(s[i+1]) /\ IsHexCp(s[i+2]))
+
 (* ---- Link (RFC 8288) ---------------------------------------------------------------------- *)
 (* optional members are 0/1-element sequences *)
 LinkRec(target, rel, title, tstar, anchor, type, hreflang, crossorigin) ==
